@@ -139,7 +139,7 @@ def _worker_chunk(args):
 
 
 def run_batch(machine_name, batch_seed, tier, nruns, workers=None, deadline_s=None, chunk=None,
-              first_index=0):
+              first_index=0, stop_on_violation=False):
     """Run ``nruns`` seeded runs.  Returns the merged aggregate (deterministic in content)."""
     workers = workers or min(16, os.cpu_count() or 1)
     chunk = chunk or max(1, min(64, nruns // (workers * 4) or 1))
@@ -156,7 +156,8 @@ def run_batch(machine_name, batch_seed, tier, nruns, workers=None, deadline_s=No
               "digests": [], "samples": [], "skipped": 0}
     ctx = multiprocessing.get_context("fork")
     t0 = time.time()
-    with ProcessPoolExecutor(max_workers=workers, mp_context=ctx) as ex:
+    ex = ProcessPoolExecutor(max_workers=workers, mp_context=ctx)
+    try:
         for out in ex.map(_worker_chunk, tasks):
             merged["runs"] += out["runs"]
             merged["steps"] += out["steps"]
@@ -170,6 +171,11 @@ def run_batch(machine_name, batch_seed, tier, nruns, workers=None, deadline_s=No
             merged["digests"].extend(out["digests"])
             if len(merged["samples"]) < 3:
                 merged["samples"].extend(out["samples"][: 3 - len(merged["samples"])])
+            if stop_on_violation and merged["violations"]:
+                merged["stopped_early"] = True
+                break
+    finally:
+        ex.shutdown(wait=True, cancel_futures=True)
     merged["wall_s"] = time.time() - t0
     merged["violations"].sort(key=lambda v: v["index"])
     merged["digests"].sort()
